@@ -136,8 +136,13 @@ func runCheck(id, tier string) int {
 			rep, vs, smp, err = runConform(b, id, p, tier)
 		}
 		if err != nil {
-			engineErr = err.Error()
-			break
+			// an engine error (nondeterminism the explorer does not own, a stall, a worker crash that does not reproduce) in
+			// one part: the other parts still run; violations they find are reported (exit 1), otherwise the engine error is (exit 3)
+			if engineErr == "" {
+				engineErr = err.Error()
+			}
+			fmt.Fprintf(os.Stderr, "verif: engine error in part %s: %s\n", p.Name, err.Error())
+			continue
 		}
 		reports = append(reports, rep)
 		viols = append(viols, vs...)
@@ -155,9 +160,12 @@ func runCheck(id, tier string) int {
 			total.Exhaustive = false
 		}
 	}
-	if engineErr != "" {
+	if engineErr != "" && len(viols) == 0 {
 		fmt.Fprintf(os.Stderr, "verif: engine error: %s\n", engineErr)
 		return 3
+	}
+	if engineErr != "" {
+		total.Exhaustive = false
 	}
 	// classify violations against the known-findings file
 	var unknown []violation
@@ -244,6 +252,10 @@ func runCheck(id, tier string) int {
 		id, tier, total.Evaluations, total.States, total.Transitions, total.Exhaustive, nv, len(knownSeen), time.Since(t0).Seconds())
 	if nv > 0 {
 		return 1
+	}
+	if engineErr != "" {
+		fmt.Fprintf(os.Stderr, "verif: engine error: %s\n", engineErr)
+		return 3
 	}
 	return 0
 }
